@@ -26,6 +26,12 @@ echo "== demo on unmodified code" >> "$R"
 echo "rc=$rc_clean" >> "$R"
 echo "== apply + build" >> "$R"
 git -C "$D" apply "$DEL/${WHICH}.patch.diff" >> "$R" 2>&1; rc_apply=$?
+if [ $rc_apply -ne 0 ]; then
+  # /repo has moved on since the change was written (repairs): merge it
+  echo "-- plain apply failed, trying a 3-way merge onto the current HEAD" >> "$R"
+  git -C "$D" apply --3way "$DEL/${WHICH}.patch.diff" >> "$R" 2>&1; rc_apply=$?
+  if [ $rc_apply -eq 0 ]; then git -C "$D" reset -q; git -C "$D" diff > "$OUT/patch.rebased.diff"; fi
+fi
 (cd "$PKGDIR" && go build ./... ) >> "$R" 2>&1; rc_build=$?
 echo "rc_apply=$rc_apply rc_build=$rc_build" >> "$R"
 echo "== demo with the change" >> "$R"
